@@ -252,6 +252,22 @@ impl ClockCache {
         })
     }
 
+    /// Every entry as `(key, accounted size, reference bit)`. Does not set reference bits.
+    #[cfg(feoxdb_verif)]
+    pub fn verif_entries(&self) -> Vec<(Vec<u8>, usize, bool)> {
+        let mut entries = Vec::new();
+        for bucket in &self.buckets {
+            for entry in bucket.read().iter() {
+                entries.push((
+                    entry.key.clone(),
+                    entry.size,
+                    entry.reference_bit.load(Ordering::Relaxed),
+                ));
+            }
+        }
+        entries
+    }
+
     /// `(entries, sum of entry sizes)` as actually held. Does not set reference bits.
     #[cfg(feoxdb_verif)]
     pub fn verif_totals(&self) -> (usize, usize) {
